@@ -557,7 +557,10 @@ def run_property(pid: str, props_file: str, streams: list[Stream], tier: str, se
         ev["coverage"]["proofs_built"] = False
     (ROOT / "evidence").mkdir(exist_ok=True)
     # a --replay run judges one stored case: it must not replace the evidence of a full run
+    # ... and neither must a run against a scratch copy of the repository (VERIF_REPO)
     ev_name = f"{pid}.json" if replay_case is None else f"{pid}.replay.json"
+    if REPO.resolve() != Path("/repo"):
+        ev_name = f"{pid}.scratch.json"
     (ROOT / "evidence" / ev_name).write_text(json.dumps(ev, indent=1, default=str))
 
     for line in known_lines:
